@@ -243,6 +243,7 @@ def h3_language_oracle(rep, run3):
     for gid in sorted(run3.real):
         r = run3.real[gid]; meta = run3.meta[gid]
         if r["skipped"] or not r["states"] or "CONFLICT" in r["diag"]: continue
+        if h3_d4_lexer(run3, gid): continue          # tokens of a lexer with known finding D4 are not the documented tokens
         if any(kd == 2 for ru in meta["rules"] for kd, v in ru["rhs"]): continue
         try:      # the hidden accept/reduce clash (known finding D12, judged by C11) is not a conflict-free grammar
             ris = [tuple(int(x) for x in e.split(",")) for e in r["gi"]["RI"].split()]; eof = int(r["gi"]["GI"].split()[0]) - 2
@@ -736,6 +737,12 @@ def h3_tables_and_runs(rep, run, tables=True, runs=True, value_kind=None):
                              contextual_calls_observed=a["ctx"], contextual_calls_expected=b["ctx"], terms=[bytes(t["data"]).decode("latin1") for t in run.meta[gid]["terms"]]); break
                 if a != b: rep.tie_broken(f"correspondence H3/run: parser {gid} input {j}: result, context log or trace of the real driver differ from the driver mirror's (on the real tables and lexer automaton)"); break
 
+def h3_d4_lexer(run3, gid):
+    """known finding D4 in a generated program: the REAL lexer automaton fails the derivative validator (LEXVALID of the driver-mirror run,
+    which is computed on the real dump) AND is state-for-state the automaton of the pinned mirror"""
+    r = run3.real.get(gid); m = run3.model.get(gid); mrt = run3.model_rt.get(gid)
+    return bool(r and m and mrt and mrt.get("lexvalid") is False and r["dfa"] == m["dfa"])
+
 def h3_token_oracle(rep, run3, what):
     """H3 programs use the GENERATED lexer over real char/string/regex terms: the terms shifted or discarded (name, lexeme,
     position) must be a prefix of the longest-match / first-listed tokenisation of the input, computed independently"""
@@ -745,6 +752,11 @@ def h3_token_oracle(rep, run3, what):
         r = run3.real[gid]; meta = run3.meta[gid]
         names = [bytes(t["name"]).decode("latin1") for t in meta["terms"]] + ["<eof>", "<error_recovery_token>"]
         if r["skipped"]: continue
+        if h3_d4_lexer(run3, gid):
+            rep.notes.setdefault("dsl_lexers_with_known_finding_D4", []).append(gid)
+            if what == "lexer" and not any(k.startswith("D4") for k in rep.known):
+                rep.known_finding(D4_TEXT + f" [lexer of generated program {gid}: terms {[bytes(t['data']).decode('latin1') for t in meta['terms']]}]")
+            continue
         cases = split_h3_inputs(run3, gid)
         for j, (flags, b) in enumerate(cases):
             if j >= len(r["inputs"]): break
